@@ -127,7 +127,7 @@ def check_columns(spec):
 
 
 def _grids(tier: str, seed: int):
-    base = [0, 1, 2, 4, 7, 11] if tier == "quick" else [0, 1, 2, 4, 7, 11, 16, 22, 29]
+    base = [0, 1, 2, 4, 7, 11] if tier == "quick" else [0, 1, 2, 4, 7, 11, 16, 22, 29, 37, 46]
     scales = [1.0, 0.1, 1e-3, 1e6]
     offsets = [0.0, -5.0]
     # VERIF_SEED only rotates which representative offset is used; the subset lattice is complete
